@@ -14,6 +14,7 @@ import (
 	"go.brendoncarroll.net/p2p/p/p2pke"
 	"go.brendoncarroll.net/p2p/s/swarmutil"
 	"go.brendoncarroll.net/p2p/s/udpswarm"
+	"go.brendoncarroll.net/p2p/verifhook"
 )
 
 const Overhead = p2pke.Overhead
@@ -187,6 +188,7 @@ func (s *Swarm[T]) handleMessage(ctx context.Context, msg p2p.Message[T]) error 
 		return err
 	}
 	if out != nil {
+		verifhook.Point(verifhook.P2pkeSwarmAfterDeliver)
 		remoteKey := cs.Channel.RemoteKey()
 		srcID := s.config.fingerprinter(&remoteKey)
 		return s.hub.Deliver(ctx, p2p.Message[Addr[T]]{
